@@ -48,6 +48,19 @@ class CGraph:
 
     """
 
+    def __deepcopy__(self, memo):
+        # an independent graph of the same program: the nodes are copied
+        # structurally, not recorded as copies
+        saved, Function.cgraph = Function.cgraph, None
+        try:
+            new = self.__class__.__new__(self.__class__)
+            memo[id(self)] = new
+            for key, value in self.__dict__.items():
+                setattr(new, key, copy.deepcopy(value, memo))
+        finally:
+            Function.cgraph = saved
+        return new
+
     def __init__(self):
         self.functionCount = 0
         self.functionList = []
@@ -1354,7 +1367,18 @@ class Function(Ring):
     clone = copy
 
     def __deepcopy__(self, memo):
-        return self.copy()
+        # while a graph is recording the copy of a traced value is a recorded
+        # node; otherwise (e.g. copy.deepcopy of a whole CGraph) the node is
+        # copied structurally, together with its arguments
+        if Function.cgraph is not None:
+            new = self.copy()
+            memo[id(self)] = new
+            return new
+        new = self.__class__.__new__(self.__class__)
+        memo[id(self)] = new
+        for key, value in self.__dict__.items():
+            setattr(new, key, copy.deepcopy(value, memo))
+        return new
 
     def get_flat(self):
         # a traced node (reading the raw value would leave the graph)
